@@ -153,8 +153,13 @@ def node_json(n):
     d = {"c": B(n.chain_code), "depth": n.depth, "idx": idx_json(n.index), "pfp": B(n.parent_fingerprint),
          "net": "test" if n.testnet else "main", "prv": type(n) is PrvKeyNode}
     if type(n) is PrvKeyNode:
-        d["k"] = B(bytes(n.private_key))
-    d["K"] = B(n.public_key.sec())
+        # the raw attribute (observation point .key); parsed nodes carry the 00 pad
+        raw = bytes(n.key)
+        d["k"] = B(raw[1:] if len(raw) == 33 and raw[0] == 0 else raw)
+    try:
+        d["K"] = B(n.public_key.sec())
+    except Exception:
+        d["K"] = []          # the node holds key material the library itself cannot use
     return d
 
 
@@ -229,3 +234,154 @@ def ByPath(inp, tab, ev):
         except Exception:
             pass
     ev["fold"] = folds
+
+
+# ------------------------------------------------- C01 / C02 / C18 derivation
+def make_prf(spec):
+    """chosen-PRF description (JSON) -> function (key, msg) -> 64 bytes or None (= real HMAC).
+    {"all": [64]}                      every HMAC-SHA512 query gets this output
+    {"by_index": {"<i>": [64]}, "master": [64]}  chosen by the ser32(i) suffix of the message"""
+    if not spec:
+        return None
+
+    def prf(key, msg):
+        if "all" in spec:
+            return bytes(spec["all"])
+        if key == b"Bitcoin seed" and "master" in spec:
+            return bytes(spec["master"])
+        if len(msg) >= 4 and key != b"Bitcoin seed":
+            i = str(int.from_bytes(msg[-4:], "big"))
+            if i in spec.get("by_index", {}):
+                return bytes(spec["by_index"][i])
+        return None
+    return prf
+
+
+def py_node(j):
+    """abstract node record (JSON) -> Prv/PubKeyNode built through the public constructor"""
+    from btc_hd_wallet.bip32 import PrvKeyNode, PubKeyNode
+    kw = dict(chain_code=bytes(j["c"]), index=int.from_bytes(bytes(j["idx"]), "big"), depth=j["depth"],
+              testnet=(j["net"] == "test"), parent_fingerprint=bytes(j["pfp"]))
+    if j["prv"]:
+        return PrvKeyNode(key=bytes(j["k"]), **kw)
+    return PubKeyNode(key=bytes(j["K"]), **kw)
+
+
+def ref_node(tab, j):
+    from . import refwallet as W
+    if j["prv"]:
+        k = bytes(j["k"])
+        K = tab.ptc(k)
+    else:
+        k, K = None, bytes(j["K"])
+    return W.RNode(k, K, bytes(j["c"]), j["depth"], int.from_bytes(bytes(j["idx"]), "big"), bytes(j["pfp"]), j["net"])
+
+
+def node_view(n):
+    """node + the strings the library prints for it"""
+    from btc_hd_wallet.bip32 import PrvKeyNode
+    d = {"node": node_json(n)}
+    try:
+        d["xpub"] = T(n.extended_public_key())
+    except Exception:
+        d["xpub"] = T("ERR")
+    if type(n) is PrvKeyNode:
+        try:
+            d["xprv"] = T(n.extended_private_key())
+        except Exception:
+            d["xprv"] = T("ERR")
+    return d
+
+
+def ref_strings(tab, rn):
+    from . import refwallet as W
+    if rn is None or rn.depth > 255:
+        return
+    W.ser(tab, rn, W.VERSIONS[("pub", rn.net, "bip44")], False)
+    if rn.k is not None:
+        W.ser(tab, rn, W.VERSIONS[("prv", rn.net, "bip44")], True)
+
+
+def queries_json(tap):
+    return [{"key": B(q["key"]), "msg": B(q["msg"])} for q in tap.sha512_queries()]
+
+
+@act
+def Master(inp, tab, ev):
+    from btc_hd_wallet.bip32 import PrvKeyNode
+    from . import refwallet as W
+    from .recorders import PrfTap
+    prf = make_prf(inp.get("prf"))
+    seed = bytes(inp["seed"])
+    rn = W.master(tab, seed, inp["net"], prf)
+    ref_strings(tab, rn)
+    with PrfTap(prf) as tap:
+        ok, v = call(PrvKeyNode.master_key, seed, inp["net"] == "test")
+    ev["q"] = queries_json(tap)
+    ev["res"] = res_of(ok, v, node_view)
+
+
+def _ckd_event(inp, tab, ev):
+    from . import refwallet as W
+    from .recorders import PrfTap
+    prf = make_prf(inp.get("prf"))
+    i = int.from_bytes(bytes(inp["i"]), "big")
+    rpar = ref_node(tab, inp["par"])
+    rn = W.ckd(tab, rpar, i, prf)
+    ref_strings(tab, rn)
+    par = py_node(inp["par"])
+    ev["par_before"] = {"node": node_json(par), "nch": len(par.children)}
+    with PrfTap(prf) as tap:
+        ok, v = call(par.ckd, i)
+    ev["q"] = queries_json(tap)
+    ev["par_after"] = {"node": node_json(par), "nch": len(par.children) - (1 if ok else 0)}
+    ev["res"] = res_of(ok, v, node_view)
+
+
+@act
+def CkdPriv(inp, tab, ev):
+    _ckd_event(inp, tab, ev)
+
+
+@act
+def CkdPub(inp, tab, ev):
+    _ckd_event(inp, tab, ev)
+
+
+@act
+def DerivePath(inp, tab, ev):
+    from . import refwallet as W
+    from .recorders import PrfTap
+    prf = make_prf(inp.get("prf"))
+    path = [int.from_bytes(bytes(i), "big") for i in inp["path"]]
+    rroot = ref_node(tab, inp["root"])
+    rn = W.derive(tab, rroot, path, prf)
+    ref_strings(tab, rn)
+    root = py_node(inp["root"])
+    with PrfTap(prf) as tap:
+        ok, v = call(root.derive_path, path)
+    ev["q"] = []
+    ev["res"] = res_of(ok, v, node_view)
+
+
+@act
+def Agree(inp, tab, ev):
+    """derive privately and publicly along the same path from one root"""
+    from btc_hd_wallet.bip32 import PubKeyNode
+    from . import refwallet as W
+    path = [int.from_bytes(bytes(i), "big") for i in inp["path"]]
+    rroot = ref_node(tab, inp["root"])
+    rn = W.derive(tab, rroot, path)
+    ref_strings(tab, rn)
+    ru = W.derive(tab, W.neuter(rroot), path)
+    ref_strings(tab, ru)
+    root = py_node(inp["root"])
+    ok1, v1 = call(root.derive_path, path)
+    # the public twin is obtained the way a watch-only user gets it: from the xpub string
+    ok0, pub_root = call(lambda: PubKeyNode.parse(root.extended_public_key(), testnet=root.testnet))
+    if not ok0:
+        ev["res"] = res_of(False, pub_root)
+        return
+    ok2, v2 = call(pub_root.derive_path, path)
+    ev["res"] = {"ok": True, "v": {"prv": dict(ok=ok1, **(node_view(v1) if ok1 else {})),
+                                   "pub": dict(ok=ok2, **(node_view(v2) if ok2 else {}))}}
